@@ -2,8 +2,10 @@
 """Writes /verif/seeded/README.md: one row per confirmed seeded change."""
 import glob, json, os
 
+V = os.path.dirname(os.path.dirname(os.path.abspath(__file__)))
+
 rows = []
-for d in sorted(glob.glob("/verif/seeded/*/")):
+for d in sorted(glob.glob(V + "/seeded/*/")):
     try:
         m = json.load(open(os.path.join(d, "meta.json")))
     except Exception:
@@ -20,7 +22,7 @@ for d in sorted(glob.glob("/verif/seeded/*/")):
             first = fl[i:i + 110] if i >= 0 else fl[:110]
             break
     rows.append((name, m.get("property", ""), (m.get("title") or "")[:110], (m.get("what_it_needs_to_manifest") or "")[:200], caught, first, m.get("strengthened", "")))
-with open("/verif/seeded/README.md", "w") as f:
+with open(V + "/seeded/README.md", "w") as f:
     f.write("# Seeded changes\n\nEach directory holds `patch.diff` (against /repo at the time it was written; `git apply --3way` if HEAD moved), the\nauthor's demonstration (`demo_test.go`: fails with the patch, passes without) and `meta.json` (what it breaks, what it needs in\norder to manifest, my confirmation, which check reports it and with which first report). All were written by independent\nsub-agents that saw only the property text and a scratch worktree. `strengthened` says what had to be added to the check\nbefore it reported the change (empty: reported by the check as it was).\n\n")
     f.write("| id | property | change | needs | reported by | first report | strengthened |\n|---|---|---|---|---|---|---|\n")
     for r in rows:
